@@ -13,7 +13,8 @@ CHUNK = 100
 RULE = ("one case = a prior history on a simulator+model (never started / k steps "
         "/ paused by a handler calling stop / bounded run / ended / paused by an "
         "injected handler fault / refused start / initialize attempted from a "
-        "handler while running) followed by initialize(model, replication) again "
+        "handler while running / ended and re-initialised by a polling caller the moment ENDED is "
+        "published, with the eager-poller fault) followed by initialize(model, replication) again "
         "(same model object, same or different replication settings) and a run to "
         "the end; the model creates its Sim statistics and seeded streams in "
         "construct_model and observes stream draws through them. Differential "
@@ -127,6 +128,8 @@ def generate(seed, tier, idx=0):
             case["sched"]["eager"] = [rng.choice([0.5, 0.01]), rng.choice([0, 1, 2, 3, 4, 6, 8, 10, 12, 15, 20, 25, 30, 40, 60])]
             if rng.random() < 0.5:
                 case["sched"]["kind"] = "S0"
+        if rng.random() < 0.2:
+            case["sched"]["opcodes"] = True      # pre-emption between bytecodes
     elif prior == "refused":
         guard = 0
         while ref.run_state != "ENDED" and guard < 6 and ref.can_start():
@@ -158,6 +161,11 @@ def generate(seed, tier, idx=0):
                 cmds.extend([c, ["settle"]])
         case["two_models"] = True
     init2 = ["initialize"] + ([rep2] if rep2 else [])
+    if rng.random() < 0.1:
+        # the re-initialisation first fails inside the user's construct_model and
+        # is simply retried (no cleanup in between)
+        cmds.extend([["initialize_failing"] + ([rep2] if rep2 else []), ["settle"]])
+        case["failed_initialize"] = True
     case["reinit_at"] = len([c for c in cmds if c[0] not in HARNESS_ACTIONS])
     devscommon.ref_apply(ref, init2)
     tail = [init2, ["settle"]]
